@@ -94,6 +94,10 @@ type Opts struct {
 	// MeshPort > 0: the real mesh router of the swarm is started on 127.0.0.1:MeshPort (Swarm.Listen, as Service.Listen does)
 	// instead of a substituted gossip transport; peers are joined with Broker.Join.
 	MeshPort int
+	// ContractURL != "": the HTTP contract provider (a remote registry answering GET <url><id>) with the given refresh
+	// interval in milliseconds, instead of the single-contract provider.
+	ContractURL      string
+	ContractInterval int
 }
 
 type Broker struct {
@@ -182,6 +186,9 @@ func NewBroker(o Opts) (*Broker, error) {
 		conf.Storage = &cfg.ProviderConfig{Provider: "noop"}
 	}
 	conf.Monitor = &cfg.ProviderConfig{Provider: "noop"}
+	if o.ContractURL != "" {
+		conf.Contract = &cfg.ProviderConfig{Provider: "http", Config: map[string]interface{}{"url": o.ContractURL, "interval": float64(o.ContractInterval)}}
+	}
 	conf.Limit.MessageSize = o.MaxMessageSize
 	conf.Limit.ReadRate = o.ReadRate
 	ctx, cancel := context.WithCancel(context.Background())
